@@ -83,8 +83,31 @@ func garbage(seed uint64, ord int, w *netsim.World, cfg C10Cfg, sessTopic []byte
 		}
 	}
 	typ, topic, data = tmpl.Type, append([]byte(nil), tmpl.Topic...), append([]byte(nil), tmpl.Data...)
-	muts := []string{"truncate", "truncate", "truncate", "extend", "empty", "nil", "type", "topic", "ackfield", "firstbyte", "secondbyte", "random", "flip", "synctail", "bigview"}
+	muts := []string{"truncate", "truncate", "truncate", "extend", "empty", "nil", "type", "topic", "ackfield", "firstbyte", "secondbyte", "random", "flip", "synctail", "bigview", "syncvalid", "syncvalid"}
 	kind = muts[r.Intn(len(muts))]
+	if kind == "syncvalid" && cfg.Mode == "foreign" {
+		// a configured member can always keep the membership synchronisation from completing (it may simply announce
+		// itself), so well-formed synchroniser traffic is session traffic even when it comes from a non-participant
+		kind = "synctail"
+	}
+	if kind == "syncvalid" {
+		// a well-formed but unsolicited synchroniser message under the sender's own, correct tag, on one of the
+		// topics the session synchronises on: nothing is malformed, it is only not expected at this point
+		from = []uint16{cfg.Outsider, cfg.Outsider, invokers[r.Intn(len(invokers))]}[r.Intn(3)]
+		for from == to {
+			from = cfg.Outsider
+		}
+		tp := [][]byte{sessTopic, sessTopic, sha(sessTopic)}[r.Intn(3)]
+		mt := byte(1 + r.Intn(3))
+		if r.Bool(0.5) {
+			mt = 3 // a response nobody asked for
+		}
+		view := append([]uint16(nil), invokers...)
+		if r.Bool(0.5) {
+			view = append(view, cfg.Outsider)
+		}
+		return from, to, uint8(tss.MsgTypeSync), tp, c07Encode(mt, c07Tag(tp, from), view), kind
+	}
 	switch kind {
 	case "truncate":
 		if len(data) > 0 {
